@@ -286,7 +286,7 @@ func (g *c01Gen) schema(depth int) map[string]any {
 	case n < 9 && depth < 3:
 		g.feat["schema=map"]++
 		if g.mapDepth >= 2 { // a map of a map of a map gives two auxiliary types one name when flattening is disabled (probe P20)
-			return map[string]any{"type": "object", "additionalProperties": g.primitive()}
+			return g.primitive()
 		}
 		g.mapDepth++
 		v := g.schema(depth + 1)
